@@ -15,7 +15,7 @@ ALL = ["ints", "bool", "float", "str", "char", "rec", "enum", "opt", "list", "lo
 
 
 def run(tier):
-    fam = [("effects", ALL, 3, 300, 5000, 2), ("deep", ["ints", "bool", "str", "enum", "opt", "rec", "list", "loops", "calls", "ret", "fstr"], 4, 100, 2000, 2)]
+    fam = [("effects", ALL, 3, 600, 5000, 2), ("deep", ["ints", "bool", "str", "enum", "opt", "rec", "list", "loops", "calls", "ret", "fstr"], 4, 200, 2000, 2)]
     return semlib.run_sem_check(
         PID, tier, fam,
         rule=("cases = recorded native executions of seeded random effectful programs; distinct = distinct (source, "
